@@ -309,6 +309,12 @@ fn check_query(c: &Query, obs: &mut Obs) -> Result<(), String> {
     check_dsym_queries(&shist, ds, "SimpleDSym(from a re-assigned PartialDSym)")?;
     ensure!(hist == psym, "a PartialDSym that was re-assigned through set_v differs (==) from a freshly built one");
     ensure!(format!("{}", hist) == format!("{}", psym), "a PartialDSym that was re-assigned through set_v prints as {}, a freshly built one as {}", hist, psym);
+    // assembled with the public from_fields, 2-orbits numbered in reverse
+    let fields: PartialDSym = ds.to_partial_from_fields_reversed(1);
+    check_dset_queries(&fields, ds, "PartialDSym::from_fields(orbits numbered in reverse)", true)?;
+    check_dsym_queries(&fields, ds, "PartialDSym::from_fields(orbits numbered in reverse)")?;
+    check_dsym_queries(&SimpleDSym::from(fields.clone()), ds, "SimpleDSym(PartialDSym::from_fields(orbits numbered in reverse))")?;
+    ensure!(format!("{}", fields) == format!("{}", psym), "PartialDSym::from_fields with orbits numbered in reverse prints as {}, a freshly built one as {}", fields, psym);
     check_dset_queries(&ssym, ds, "SimpleDSym", true)?;
     check_dset_queries(&conv1, ds, "as_partial_dsym(SimpleDSym)", true)?;
     check_dset_queries(&conv2, ds, "as_dset(SimpleDSym)", true)?;
